@@ -59,7 +59,22 @@ def adapter_obj(src, cfg, builddir, extra=()):
                        deps=[cfgh, os.path.join(H, "adp_masked.h")], key_extra=vcommon.tree_hash() + cfg.name)
 
 
-def masked_bins(name, src, cfgs, extra_flags=()):
+def asm_obj(src):
+    """Assemble a harness .S file (cached by content)."""
+    import hashlib
+    from vcommon import BUILD, InfraError, sh
+    h = hashlib.sha256(open(src, "rb").read()).hexdigest()[:16]
+    out = os.path.join(BUILD, "obj", "%s-%s.o" % (os.path.basename(src).replace(".", "_"), h))
+    if not os.path.exists(out):
+        os.makedirs(os.path.dirname(out), exist_ok=True)
+        rc, o = sh(["gcc", "-c", src, "-o", out + ".tmp"])
+        if rc != 0:
+            raise InfraError("cannot assemble %s: %s" % (src, o))
+        os.replace(out + ".tmp", out)
+    return out
+
+
+def masked_bins(name, src, cfgs, extra_flags=(), extra_objs=()):
     """Harness + word tape + per-configuration masked adapter."""
     dirs = build_libs(cfgs)
     obj = compile_obj(os.path.join(H, src), extra_flags=list(extra_flags), key_extra=headers_key(),
@@ -69,5 +84,5 @@ def masked_bins(name, src, cfgs, extra_flags=()):
     for c in cfgs:
         adp = adapter_obj("adp_masked.c", c, dirs[c.name])
         san = ["-fsanitize=address,undefined"] if "asan" in c.instr else []
-        out.append((c.name, link_bin(name, [obj, tape, adp], dirs[c.name], extra=san)))
+        out.append((c.name, link_bin(name, [obj, tape, adp] + list(extra_objs), dirs[c.name], extra=san)))
     return out
